@@ -205,6 +205,11 @@ func cvLog(r *rng, s *sink, maxLaps, maxRows int, withOBD bool, baseSec int64) (
 	if accel {
 		hdr = append(hdr, "Accel X", "Accel Y", "Accel Z")
 	}
+	// columns that conversion must carry through or ignore without changing anything else
+	delay := r.chance(1, 4)
+	if delay {
+		hdr = append(hdr, "GPS_Delay")
+	}
 	nch := 0
 	if withOBD {
 		hdr = append(hdr, "OBD_Update")
@@ -254,7 +259,15 @@ func cvLog(r *rng, s *sink, maxLaps, maxRows int, withOBD bool, baseSec int64) (
 			}
 			vals = append(vals, fmt.Sprint(li), b01(gu), p.lat, p.lon, taFloat(r), taFloat(r), taFloat(r), taFloat(r))
 			if accel {
-				vals = append(vals, taFloat(r), taFloat(r), taFloat(r))
+				if r.chance(1, 5) {
+					// a legitimate sample that reads exactly zero on every axis
+					vals = append(vals, "0.00", "0.00", "0.00")
+				} else {
+					vals = append(vals, taFloat(r), taFloat(r), taFloat(r))
+				}
+			}
+			if delay {
+				vals = append(vals, pick(r, []string{"0.000", "0.000", "0.500", "0.120", "1.250", "2.000"}))
 			}
 			if withOBD {
 				ou := r.chance(1, 4) || (!freshSeen && r.chance(9, 10))
@@ -263,6 +276,9 @@ func cvLog(r *rng, s *sink, maxLaps, maxRows int, withOBD bool, baseSec int64) (
 					fresh++
 					for i := range obdVals {
 						obdVals[i] = taFloat(r)
+						if r.chance(1, 10) {
+							obdVals[i] = pick(r, []string{"0", "0.0", "-0.0"})
+						}
 					}
 				} else if gu {
 					needed++
